@@ -211,9 +211,16 @@ def run(ctx):
     if ctx.quick:
         cases = corpus + gen_cases(ctx, 'main', 1300, 10)
     else:
-        cases = corpus + gen_cases(ctx, 'main', 9000, 10) + gen_cases(ctx, 'long', 5000, 25)
-    res.merge(evaluate(ctx, cases))
-    res.extra['histories'] = len(cases)
+        cases = corpus + gen_cases(ctx, 'main', 7000, 10) + gen_cases(ctx, 'long', 4000, 25)
+    done = 0
+    for i in range(0, len(cases), 1500):   # batches keep the driver input (structure dumps of every step) small
+        if not ctx.quick and ctx.elapsed() > ctx.budget_s:
+            break
+        batch = cases[i:i + 1500]
+        res.merge(evaluate(ctx, batch))
+        done += len(batch)
+    res.extra['histories'] = done
+    res.extra['histories_planned'] = len(cases)
     return res
 
 
